@@ -213,7 +213,8 @@ def sess_wsgi_case(rng):
         v = 'real'
         t = 'benign'
     return {'k': 'sess_wsgi', 'store': store, 'spelling': rng.choice(S_SPELLINGS), 'id': v,
-            'action': rng.choice(['none', 'read', 'write', 'delete', 'regenerate']), 'tmpl': t}
+            'action': rng.choice(['none', 'read', 'write', 'delete', 'regenerate']), 'tmpl': t,
+            'cstyle': rng.choice(['auto', 'auto', 'octal', 'bslash', 'mixed'])}
 
 
 def cleanup_case(rng):
@@ -312,4 +313,68 @@ def neighbours(rng, case, n):
             c = sess_wsgi_case(rng)
             c['action'] = case['action'] if rng.random() < 0.7 else c['action']
             out.append(c)
+    return out
+
+
+# ---- two-thread scenarios -----------------------------------------------------------------------------
+FILES_IN = {'.': ['canary.txt', 'root-evil/secret.txt', 'other/secret.txt', 'root/f.txt', 'r/sub/g.txt'],
+            'root': ['f.txt', 'sub/g.txt', 'sub/deep/h.txt'], 'r': ['f.txt', 'sub/g.txt'],
+            'root-evil': ['secret.txt'], 'rootx': ['secret.txt'], 'other': ['secret.txt'],
+            'static.d': ['f.txt', 'index.html']}
+
+
+def conc_static_pair(rng, fixed=None):
+    """Section /a must refuse a traversal whose target lies in section /b's directory while /b serves it."""
+    if fixed is None:
+        da = rng.choice(['root', 'r', 'root', 'static.d', 'other'])
+        db = rng.choice([d for d in FILES_IN if d != da])
+        f = rng.choice(FILES_IN[db])
+        up = rng.choice(['..', '..', '%2e%2e', '.%2e', '..'])
+        kind = rng.choice(['dotdot', 'dotdot', 'dotdot', 'absolute', 'benign'])
+    else:
+        da, db, f, up, kind = fixed
+    below = f if db == '.' else db + '/' + f
+    if kind == 'dotdot':
+        pa = up + '/' + below
+    elif kind == 'absolute':
+        pa = '%2f{TOP}/' + below
+    else:
+        pa = FILES_IN[da][0]
+    return {'k': 'conc', 'half': 'static', 'dirs': [da, db], 'reqs': [{'path': pa}, {'path': f}]}
+
+
+CONC_STATIC_FIXED = [
+    ('root', '.', 'canary.txt', '..', 'dotdot'),
+    ('root', '.', 'root-evil/secret.txt', '%2e%2e', 'dotdot'),
+    ('root', 'root-evil', 'secret.txt', '..', 'dotdot'),
+    ('r', 'root', 'f.txt', '..', 'dotdot'),
+    ('root', 'other', 'secret.txt', '..', 'absolute'),
+    ('root', 'r', 'f.txt', '..', 'benign'),
+]
+
+CONC_SESSION_FIXED = [
+    [{'sec': 'sa', 'id': '/../../sess2/session-real', 'action': 'write'}, {'sec': 'sb', 'id': 'real', 'action': 'read'}],
+    [{'sec': 'sa', 'id': 'a/../../sess2/session-real2', 'action': 'delete', 'cstyle': 'octal'},
+     {'sec': 'sb', 'id': 'real2', 'action': 'write'}],
+    [{'sec': 'sb', 'id': 'b/../../sess/session-real', 'action': 'write'}, {'sec': 'sa', 'id': 'real', 'action': 'read'}],
+    [{'sec': 'sa', 'id': 'real', 'action': 'write'}, {'sec': 'sb', 'id': 'real', 'action': 'regenerate'}],
+    [{'sec': 'sa', 'id': None, 'action': 'write'}, {'sec': 'sb', 'id': '/../../sess/session-real2', 'action': 'none'}],
+]
+
+
+def conc_cases(rng, quick):
+    out = []
+    for fx in CONC_STATIC_FIXED:
+        c = conc_static_pair(rng, fx)
+        out.append(dict(c, mode='sweep1'))
+        out.append(dict(c, mode='sweep2', samples=(60 if quick else None), seed=rng.randrange(1 << 30)))
+    for _ in range(4 if quick else 40):
+        c = conc_static_pair(rng)
+        out.append(dict(c, mode='sweep1'))
+        if not quick:
+            out.append(dict(c, mode='sweep2', samples=600, seed=rng.randrange(1 << 30)))
+    for reqs in CONC_SESSION_FIXED:
+        c = {'k': 'conc', 'half': 'session', 'reqs': reqs}
+        out.append(dict(c, mode='sweep1'))
+        out.append(dict(c, mode='sweep2', samples=(25 if quick else 1500), seed=rng.randrange(1 << 30)))
     return out
